@@ -179,3 +179,31 @@ def wellformed(c: Dict[str, Any]) -> Optional[str]:
     if gv - set(i) - set(o):
         return "guarantees mention variables outside the interface %s" % sorted(gv - set(i) - set(o))
     return None
+
+
+def attribute_tactics(ev: Event) -> Optional[str]:
+    """Judge the L1 events below ev and name the first unsound accepted tactic result, if any."""
+    for e in ev.walk():
+        if e.op == "transform_term":
+            _, fs = judge_transform_term(e)
+            for f in fs:
+                if f is not None and f[0].startswith("tactic="):
+                    return f[0]
+    return None
+
+
+def tactics_accepted(ev: Event) -> List[int]:
+    out = []
+    for e in ev.walk():
+        if e.op == "transform_term" and e.out == "ret" and isinstance(e.res, list) and len(e.res) > 1:
+            if isinstance(e.res[1], int) and e.res[1] > 0:
+                out.append(e.res[1])
+    return out
+
+
+def purity_findings(ev: Event) -> List[Finding]:
+    out: List[Finding] = []
+    for e in ev.walk():
+        if e.mutated and e.op != "linprog":
+            out.append(("mutated-operand:%s" % e.op, "%s modified its argument(s) %s" % (e.op, e.mutated), None))
+    return out
